@@ -9,7 +9,10 @@ src, name, prop = args[0:3]
 checks = [prop] + args[3:]
 confirm = "not re-run"
 ok = True
-if '--no-confirm' not in sys.argv:
+ct = [a for a in sys.argv[1:] if a.startswith('--confirm-text=')]
+if ct:
+    confirm = ct[0][len('--confirm-text='):]
+elif '--no-confirm' not in sys.argv:
     best = None
     for attempt in range(3):  # the suite has load-sensitive tests; repeat a run that fails on one of them
         out = subprocess.run(['bash', '/verif/scripts/seed_confirm.sh', src], capture_output=True, text=True).stdout
